@@ -153,6 +153,40 @@ def check_triple(case):
                nt=nontrivial, tr=5)
 
 
+# ------------------------------------------------------------------ windows cut out of arrays of any rank along any axis
+def sa_cases(tier, seed):
+    NS, NW = (40, 9) if tier == "quick" else (64, 12)
+    return [(ns, nw) for ns in range(1, NS + 1) for nw in range(1, NW + 1)]
+
+
+def sa_check(case):
+    ns, nswin = case
+    v = []
+    ntr = 0
+    for overlap in range(0, nswin):
+        wg = utils.WindowGenerator(ns, nswin, overlap)
+        ref = [(int(a), int(b)) for a, b in itertools.islice(utils.WindowGenerator(ns, nswin, overlap).firstlast, ns + 3)]
+        # the window length equal to the other dimension (square blocks) is one of the shapes on purpose
+        for shape, axis in (((ns,), -1), ((ns,), 0), ((3, ns), -1), ((3, ns), 1), ((ns, 3), 0), ((ns, 1), 0), ((ns, nswin), 0), ((nswin, ns), 1), ((2, ns, 3), 1), ((ns, 2, 2), 0), ((2, 2, ns), 2), ((2, 2, ns), -1), ((2, ns, 3), -2)):
+            sig = np.arange(int(np.prod(shape)), dtype=np.float64).reshape(shape) * 1.5 + 0.25
+            try:
+                got = list(itertools.islice(wg.slice_array(sig, axis=axis), ns + 3))
+            except Exception as e:
+                v.append(("slice_array:exc", "WindowGenerator(%d, %d, %d).slice_array on shape %r axis %d raised %s: %s" % (ns, nswin, overlap, shape, axis, type(e).__name__, e)))
+                break
+            ntr += 1
+            exp = [np.take(sig, np.arange(a, b), axis=axis) for a, b in ref]
+            if len(got) != len(exp) or any(g.shape != e.shape or not np.array_equal(g, e) for g, e in zip(got, exp)):
+                bad = next((i for i, (g, e) in enumerate(zip(got, exp)) if g.shape != e.shape or not np.array_equal(g, e)), -1)
+                v.append(("slice_array", "WindowGenerator(%d, %d, %d).slice_array on an array of shape %r along axis %d: %d windows (expected %d); window %d has shape %r, the samples [%d, %d) along that axis have shape %r"
+                          % (ns, nswin, overlap, shape, axis, len(got), len(exp), bad, got[bad].shape if 0 <= bad < len(got) else None,
+                             ref[bad][0] if bad >= 0 else -1, ref[bad][1] if bad >= 0 else -1, exp[bad].shape if bad >= 0 else None)))
+                break
+        if v:
+            break
+    return Res(v, o=(ns >= nswin, nswin == 1), tr=ntr)
+
+
 # ------------------------------------------------------------------ histories on one generator object
 OPS = ("full", "peek", "half", "tscale", "valid", "valid-peek", "splice", "slice-half", "nested", "raise")
 
@@ -291,6 +325,8 @@ CHECK = {
     "clauses": [
         Clause("box", "all triples in the box", cases=_box, check=check_triple),
         Clause("large", "production-size triples", cases=_large, check=check_triple),
+        Clause("slice-array", "windows cut out of 1-D / 2-D / 3-D arrays along every axis (square blocks included) are the samples [first, last) along that axis",
+               cases=sa_cases, check=sa_check),
         Clause("object-histories", "every sequence (to depth 3 quick / 4 thorough) of complete, abandoned, nested and failing passes, time scales, valid windows, splicing and slices on ONE "
                "generator object: every operation still gives the reference answer", cases=hist_cases, check=hist_check, setup=_hist_setup),
     ],
